@@ -751,7 +751,13 @@ def clause_lemma(ctx, name, setup, hyps, goals, where="lemma", use=()):
     out = []
     for g in goals:
         nm, cl = g if isinstance(g, tuple) else ("goal", g)
-        f = eval_clause(ex, cl, env=env)
+        try:
+            f = eval_clause(ex, cl, env=env)
+        except symex.RaiseSignal as r_:
+            # the clause itself cannot be evaluated on what the code produced (a key / attribute it speaks about is
+            # missing): the goal does not hold
+            ex.notes.append({"goal": nm, "raised": r_.exc_type})
+            f = False
         f = f if is_z3(f) else z3.BoolVal(bool(f))
         ob = symex.Obligation("lemma:%s:%s" % (name, nm), [h for h in hs if is_z3(h)], f, "lemma", where,
                               meta={"leaves": sfac.leaves})
